@@ -170,35 +170,135 @@ theorem single_terr (cfg : CCfg) :
 
 /-! ### one pass -/
 
-/-- `roundTripTail` either is the single-exchange processing, or left a pending challenge
-untouched by the download. -/
+/-- A response without what the download recorded. -/
+def Resp.noOut (r : Resp) : Resp := { r with out := none }
+
+/-- The caller-visible state up to what the download recorded (`r.out`). -/
+def CView.core (v : CView) : CView := { v with r := v.r.noOut }
+
+/-- Whenever an error is recorded on a response, `ToBytes` has filled the cache before. -/
+def ErrCached (v : CView) : Prop := v.hasResp = true → v.r.err.isSome = true → v.r.cache.isSome = true
+
+theorem toBytes_errCached (r : Resp) (h : r.err.isSome = true → r.cache.isSome = true) :
+    r.toBytes.2.err.isSome = true → r.toBytes.2.cache.isSome = true := by
+  unfold Resp.toBytes
+  split
+  · exact h
+  · split
+    · intro _; simp_all
+    · split
+      · intro h'; simp_all
+      · rename_i b _
+        rcases hb : b.readAll with ⟨⟨d, e⟩, b'⟩
+        simp only
+        cases e <;> simp
+
+theorem ofExch_errCached (e : Exch) : ErrCached (CView.ofExch e) := by
+  cases e <;> intro h1 h2 <;> simp [CView.ofExch] at h1 h2
+
+theorem autoReadStep_errCached (v : CView) (h : ErrCached v) (hh : v.hasResp = true) :
+    ErrCached (autoReadStep v) := by
+  intro _ he
+  simp only [autoReadStep] at he ⊢
+  exact toBytes_errCached v.r (h hh) he
+
+theorem bindBody_errCached (base : Cfg) (v : CView) (h : ErrCached v) : ErrCached (bindBody base v) := by
+  unfold bindBody
+  split
+  · exact h
+  · rename_i hc
+    have hh : v.hasResp = true := by
+      cases hv : v.hasResp <;> simp_all
+    have key := toBytes_errCached v.r (h hh)
+    rcases ht : v.r.toBytes with ⟨⟨d, e⟩, r'⟩
+    rw [ht] at key
+    cases e <;> simp only <;> (try split) <;> (intro _ he; exact key he)
+
+/-- `parseResponseBody` failed: an error is recorded and the cache is filled. -/
+theorem bindFails_spec (base : Cfg) (v : CView) (h : ErrCached v) (hf : bindFails base v = true) :
+    (bindBody base v).r.err.isSome = true ∧ (bindBody base v).r.cache.isSome = true ∧
+    (bindBody base v).hasResp = true := by
+  simp only [bindFails, Bool.and_eq_true, decide_eq_true_eq] at hf
+  obtain ⟨⟨hh, hw⟩, hne⟩ := hf
+  have herr : (bindBody base v).r.err.isSome = true := by
+    unfold bindBody
+    simp only [hh, hw, Bool.not_true, Bool.or_self, Bool.false_eq_true, if_false]
+    have : v.r.toBytes.2.err.isSome = true := by
+      revert hne
+      unfold Resp.toBytes
+      split
+      · rename_i e he; intro _; simp [he]
+      · split
+        · intro hne; simp at hne
+        · split
+          · intro hne; simp at hne
+          · rename_i b _
+            rcases hb : b.readAll with ⟨⟨d, e⟩, b'⟩
+            simp only
+            cases e <;> simp
+    rcases ht : v.r.toBytes with ⟨⟨d, e⟩, r'⟩
+    rw [ht] at this hne
+    simp only at hne
+    cases e <;> simp only <;> first | exact absurd rfl hne | exact this
+  have hh' : (bindBody base v).hasResp = true := by rw [bindBody_hasResp]; exact hh
+  exact ⟨herr, bindBody_errCached base v h hh' herr, hh'⟩
+
+/-- Saving a response whose bytes are cached changes nothing but the record of what was saved. -/
+theorem download_core (base : Cfg) (file skip : Bool) (v : CView) (acc : Option Bytes)
+    (hc : v.r.cache.isSome = true) : (download base file skip v acc).1.core = v.core := by
+  unfold download
+  split
+  · rfl
+  · obtain ⟨c, hc'⟩ := Option.isSome_iff_exists.mp hc
+    have hs : base.save = true := by
+      rename_i h
+      cases hsv : base.save <;> simp_all
+    simp [CView.core, Resp.noOut, handleDownload, hs, hc']
+
+theorem preBind_errCached (base : Cfg) (e : Exch) :
+    ErrCached (if autoRead base (CView.ofExch e).r then autoReadStep (CView.ofExch e) else CView.ofExch e) := by
+  split
+  · rename_i ha
+    have hh : (CView.ofExch e).hasResp = true := by
+      cases e with
+      | terr => simp [CView.ofExch, autoRead] at ha
+      | resp => rfl
+    exact autoReadStep_errCached _ (ofExch_errCached e) hh
+  · exact ofExch_errCached e
+
+/-- `roundTripTail` is the single-exchange processing, except that a Digest challenge is not
+saved: then either the digest middleware is going to answer it (no error recorded), or an error
+is recorded and only the record of what was saved differs. -/
 theorem roundTripTail_cases (cfg : CCfg) (e : Exch) (acc : Option Bytes) :
-    (roundTripTail cfg e acc).1.src = e ∧ (roundTripTail cfg e acc).1.resent = false ∧
+    (roundTripTail cfg e acc).1.src = e ∧
     ((roundTripTail cfg e acc).1.v = (single cfg e).v ∨
-     ((roundTripTail cfg e acc).1.v.r.err = none ∧ (roundTripTail cfg e acc).1.v.hasResp = true ∧
-      (roundTripTail cfg e acc).1.v.r.status = 401 ∧ cfg.digest ≠ .off)) := by
-  refine ⟨rfl, rfl, ?_⟩
+     ((roundTripTail cfg e acc).1.v.hasResp = true ∧ (roundTripTail cfg e acc).1.v.r.status = 401 ∧
+      cfg.digest ≠ .off ∧
+      ((roundTripTail cfg e acc).1.v.r.err.isSome = true →
+        (roundTripTail cfg e acc).1.v.core = (single cfg e).v.core))) := by
+  refine ⟨rfl, ?_⟩
   rw [single_v]
   simp only [roundTripTail]
+  have hec := bindBody_errCached cfg.base _ (preBind_errCached cfg.base e)
   generalize hv2 : bindBody cfg.base
-      (if autoRead cfg.base (CView.ofExch e).r then autoReadStep (CView.ofExch e) else CView.ofExch e) = v2
+      (if autoRead cfg.base (CView.ofExch e).r then autoReadStep (CView.ofExch e) else CView.ofExch e) = v2 at hec
   by_cases hp : awaitsDigest cfg { v := v2, resent := false, src := e } = true
-  · right
-    simp only [hp, download_skip]
-    simp only [awaitsDigest, Bool.and_eq_true, decide_eq_true_eq, beq_iff_eq, Bool.not_eq_true',
-      Option.isNone_iff_eq_none] at hp
-    exact ⟨hp.1.1.1.2, hp.1.1.2, hp.1.2, hp.1.1.1.1⟩
-  · left
-    have : awaitsDigest cfg { v := v2, resent := false, src := e } = false := by
-      simpa using hp
+  · simp only [hp, download_skip]
+    simp only [awaitsDigest, Bool.and_eq_true, decide_eq_true_eq, beq_iff_eq] at hp
+    refine Or.inr ⟨hp.1.2, hp.2, hp.1.1, fun herr => ?_⟩
+    exact (download_core cfg.base cfg.file false v2 none (hec hp.1.2 herr)).symm
+  · have : awaitsDigest cfg { v := v2, resent := false, src := e } = false := by simpa using hp
     simp only [this]
-    exact download_fst_acc _ _ _ _ _ _
+    exact Or.inl (download_fst_acc cfg.base cfg.file false v2 acc none)
 
-/-- The answer the digest middleware installs is processed exactly like a single exchange. -/
+/-- What the digest middleware installs: the answer processed like a single exchange — up to
+the record of what was saved when binding it failed (then nothing is saved and an error is
+recorded). -/
 theorem digestStep_view (cfg : CCfg) (c : CR) (acc : Option Bytes) (script : List Exch)
     (c' : CR) (acc' : Option Bytes) (script' : List Exch) (f : Bool)
     (h : digestStep cfg c acc script = some ((c', acc', script'), f)) :
-    c'.v = (single cfg c'.src).v := by
+    c'.v = (single cfg c'.src).v ∨
+    (c'.v.r.err.isSome = true ∧ c'.v.core = (single cfg c'.src).v.core) := by
   unfold digestStep at h
   split at h
   · simp at h
@@ -208,35 +308,46 @@ theorem digestStep_view (cfg : CCfg) (c : CR) (acc : Option Bytes) (script : Lis
       subst hc
       simp only [single_terr]
       rfl
-    have hresp : ∀ (tag st : Nat) (rd : Bool) (cks : List Bytes) (fin : Fin) (a : Option Bytes),
-        (download cfg.base cfg.file false
-          (bindBody cfg.base
-            (if digestAutoRead cfg.base (CView.ofExch (.resp tag st rd cks fin))
-              then autoReadStep (CView.ofExch (.resp tag st rd cks fin))
-              else CView.ofExch (.resp tag st rd cks fin))) a).1 =
-        (single cfg (.resp tag st rd cks fin)).v := by
-      intro tag st rd cks fin a
-      rw [single_v]
-      have hg : digestAutoRead cfg.base (CView.ofExch (.resp tag st rd cks fin)) =
-          autoRead cfg.base (CView.ofExch (.resp tag st rd cks fin)).r := by
-        simp only [digestAutoRead, autoRead, CView.ofExch, Option.isNone_none, Bool.true_and]
-      rw [hg]
-      exact download_fst_acc _ _ _ _ _ _
     cases script with
     | nil =>
       simp only [Option.some.injEq, Prod.mk.injEq] at h
-      exact hterr c' h.1.1.symm
+      exact Or.inl (hterr c' h.1.1.symm)
     | cons e rest =>
       cases e with
       | terr =>
         simp only [Option.some.injEq, Prod.mk.injEq] at h
-        exact hterr c' h.1.1.symm
+        exact Or.inl (hterr c' h.1.1.symm)
       | resp tag st rd cks fin =>
-        simp only [Option.some.injEq, Prod.mk.injEq] at h
-        obtain ⟨⟨rfl, _, _⟩, _⟩ := h
-        exact hresp tag st rd cks fin acc
+        simp only at h
+        have hg : digestAutoRead cfg.base (CView.ofExch (.resp tag st rd cks fin)) =
+            autoRead cfg.base (CView.ofExch (.resp tag st rd cks fin)).r := by
+          simp only [digestAutoRead, autoRead, CView.ofExch, Option.isNone_none, Bool.true_and]
+        rw [hg] at h
+        have hec := preBind_errCached cfg.base (.resp tag st rd cks fin)
+        generalize hv1 : (if autoRead cfg.base (CView.ofExch (.resp tag st rd cks fin)).r
+            then autoReadStep (CView.ofExch (.resp tag st rd cks fin))
+            else CView.ofExch (.resp tag st rd cks fin)) = v1 at h hec
+        have hsingle : (single cfg (.resp tag st rd cks fin)).v =
+            (download cfg.base cfg.file false (bindBody cfg.base v1) none).1 := by
+          rw [single_v, hv1]
+        by_cases hbf : bindFails cfg.base v1 = true
+        · simp only [hbf, if_true, Option.some.injEq, Prod.mk.injEq] at h
+          obtain ⟨⟨rfl, _, _⟩, _⟩ := h
+          obtain ⟨herr, hcache, _⟩ := bindFails_spec cfg.base v1 hec hbf
+          right
+          refine ⟨herr, ?_⟩
+          simp only
+          rw [hsingle]
+          exact (download_core cfg.base cfg.file false _ none hcache).symm
+        · have hbf' : bindFails cfg.base v1 = false := by simpa using hbf
+          simp only [hbf', Bool.false_eq_true, if_false, Option.some.injEq, Prod.mk.injEq] at h
+          obtain ⟨⟨rfl, _, _⟩, _⟩ := h
+          left
+          simp only
+          rw [hsingle]
+          exact download_fst_acc _ _ _ _ _ _
 
-/-- If the digest middleware does nothing, the response was not a pending challenge. -/
+/-- If the digest middleware does nothing, the response was not a challenge without error. -/
 theorem digestStep_none (cfg : CCfg) (c : CR) (acc : Option Bytes) (script : List Exch)
     (h : digestStep cfg c acc script = none) :
     ¬ (c.v.r.err = none ∧ c.v.hasResp = true ∧ c.v.r.status = 401) := by
@@ -244,49 +355,73 @@ theorem digestStep_none (cfg : CCfg) (c : CR) (acc : Option Bytes) (script : Lis
   unfold digestStep at h
   simp only [h1, h2, h3, Option.isSome_none, Bool.not_true, Bool.or_self, bne_self_eq_false,
     Bool.false_eq_true, if_false] at h
-  split at h <;> (try split at h) <;> simp at h
+  cases script with
+  | nil => simp at h
+  | cons e rest =>
+    cases e with
+    | terr => simp at h
+    | resp tag st rd cks fin =>
+      simp only at h
+      split at h <;> (split at h <;> cases h)
+
+/-- What is compared between the final response of a call and the single-exchange reference:
+everything but the record of what was saved; and that too unless an error is recorded. -/
+def SameAsSingle (v s : CView) : Prop := v.core = s.core ∧ (v.r.err = none → v = s)
+
+theorem SameAsSingle.of_eq {v s : CView} (h : v = s) : SameAsSingle v s := ⟨by rw [h], fun _ => h⟩
+
+theorem SameAsSingle.of_err {v s : CView} (he : v.r.err.isSome = true) (h : v.core = s.core) :
+    SameAsSingle v s := ⟨h, fun hn => by rw [hn] at he; cases he⟩
 
 /-- **One pass ends on a response that was processed like a single exchange.** -/
 theorem attempt_view (cfg : CCfg) (acc : Option Bytes) (script : List Exch) :
-    (attempt cfg acc script).c.v = (single cfg (attempt cfg acc script).c.src).v := by
+    SameAsSingle (attempt cfg acc script).c.v (single cfg (attempt cfg acc script).c.src).v := by
   unfold attempt
   rcases hd : doExch script with ⟨e, script1⟩
   simp only
   rcases hr : roundTripTail cfg e acc with ⟨c, acc1⟩
-  obtain ⟨hsrc, _, hcases⟩ := roundTripTail_cases cfg e acc
+  obtain ⟨hsrc, hcases⟩ := roundTripTail_cases cfg e acc
   rw [hr] at hsrc hcases
   simp only at hsrc hcases
+  have hnone : ∀ a s, digestStep cfg c a s = none → SameAsSingle c.v (single cfg c.src).v := by
+    intro a s hds
+    rcases hcases with h | ⟨h1, h2, _, h4⟩
+    · rw [hsrc]; exact SameAsSingle.of_eq h
+    · have herr : c.v.r.err.isSome = true := by
+        cases he : c.v.r.err with
+        | none => exact absurd ⟨he, h1, h2⟩ (digestStep_none cfg c a s hds)
+        | some x => rfl
+      rw [hsrc]
+      exact SameAsSingle.of_err herr (h4 herr)
+  have hsome : ∀ a s c' a' s' f, digestStep cfg c a s = some ((c', a', s'), f) →
+      SameAsSingle c'.v (single cfg c'.src).v := by
+    intro a s c' a' s' f hds
+    rcases digestStep_view cfg c a s c' a' s' f hds with h | ⟨h1, h2⟩
+    · exact SameAsSingle.of_eq h
+    · exact SameAsSingle.of_err h1 h2
   cases hdg : cfg.digest with
   | off =>
     simp only
     rcases hcases with h | h
-    · rw [h, hsrc]
-    · exact absurd hdg h.2.2.2
+    · rw [hsrc]; exact SameAsSingle.of_eq h
+    · exact absurd hdg h.2.2.1
   | client =>
     simp only
     cases hds : digestStep cfg c acc1 script1 with
-    | none =>
-      simp only
-      rcases hcases with h | h
-      · rw [h, hsrc]
-      · exact absurd ⟨h.1, h.2.1, h.2.2.1⟩ (digestStep_none cfg c acc1 script1 hds)
+    | none => exact hnone _ _ hds
     | some x =>
       rcases x with ⟨⟨c', acc', script'⟩, f⟩
-      exact digestStep_view cfg c acc1 script1 c' acc' script' f hds
+      exact hsome _ _ c' acc' script' f hds
   | request =>
     simp only
     cases hds : digestStep cfg c acc1 script1 with
-    | none =>
-      simp only
-      rcases hcases with h | h
-      · rw [h, hsrc]
-      · exact absurd ⟨h.1, h.2.1, h.2.2.1⟩ (digestStep_none cfg c acc1 script1 hds)
+    | none => exact hnone _ _ hds
     | some x =>
       rcases x with ⟨⟨c', acc', script'⟩, f⟩
-      exact digestStep_view cfg c acc1 script1 c' acc' script' f hds
+      exact hsome _ _ c' acc' script' f hds
 
 theorem callLoop_view (cfg : CCfg) (left : Nat) (acc : Option Bytes) (script : List Exch) :
-    (callLoop cfg left acc script).1.v = (single cfg (callLoop cfg left acc script).1.src).v := by
+    SameAsSingle (callLoop cfg left acc script).1.v (single cfg (callLoop cfg left acc script).1.src).v := by
   induction left generalizing acc script with
   | zero => exact attempt_view cfg acc script
   | succ n ih =>
@@ -381,22 +516,6 @@ theorem digestStep_out (cfg : CCfg) (c : CR) (acc : Option Bytes) (script : List
       intro c' a hc ha
       subst hc ha
       exact ⟨fun d hd => by simp [CView.ofExch] at hd, fun _ => rfl⟩
-    have hresp : ∀ (e : Exch),
-        OutStep cfg.file acc
-          (download cfg.base cfg.file false
-            (bindBody cfg.base
-              (if digestAutoRead cfg.base (CView.ofExch e) then autoReadStep (CView.ofExch e)
-                else CView.ofExch e)) acc).1
-          (download cfg.base cfg.file false
-            (bindBody cfg.base
-              (if digestAutoRead cfg.base (CView.ofExch e) then autoReadStep (CView.ofExch e)
-                else CView.ofExch e)) acc).2 := by
-      intro e
-      apply download_outStep
-      rw [bindBody_out]
-      split
-      · rw [autoReadStep_out, ofExch_out]
-      · exact ofExch_out e
     cases script with
     | nil =>
       simp only [Option.some.injEq, Prod.mk.injEq] at h
@@ -407,9 +526,23 @@ theorem digestStep_out (cfg : CCfg) (c : CR) (acc : Option Bytes) (script : List
         simp only [Option.some.injEq, Prod.mk.injEq] at h
         exact hterr c' acc' h.1.1.symm h.1.2.1.symm
       | resp tag st rd cks fin =>
-        simp only [Option.some.injEq, Prod.mk.injEq] at h
-        obtain ⟨⟨rfl, rfl, _⟩, _⟩ := h
-        exact hresp (.resp tag st rd cks fin)
+        simp only at h
+        generalize hv1 : (if digestAutoRead cfg.base (CView.ofExch (.resp tag st rd cks fin))
+            then autoReadStep (CView.ofExch (.resp tag st rd cks fin))
+            else CView.ofExch (.resp tag st rd cks fin)) = v1 at h
+        have hout : (bindBody cfg.base v1).r.out = none := by
+          rw [bindBody_out, ← hv1]
+          split
+          · rw [autoReadStep_out, ofExch_out]
+          · exact ofExch_out _
+        by_cases hbf : bindFails cfg.base v1 = true
+        · simp only [hbf, if_true, Option.some.injEq, Prod.mk.injEq] at h
+          obtain ⟨⟨rfl, rfl, _⟩, _⟩ := h
+          exact ⟨fun d hd => by simp only at hd; rw [hout] at hd; exact absurd hd (by simp), fun _ => rfl⟩
+        · have hbf' : bindFails cfg.base v1 = false := by simpa using hbf
+          simp only [hbf', Bool.false_eq_true, if_false, Option.some.injEq, Prod.mk.injEq] at h
+          obtain ⟨⟨rfl, rfl, _⟩, _⟩ := h
+          exact download_outStep cfg.base cfg.file false _ acc hout
 
 /-- **One pass downloads at most once**, and what the final response of the pass recorded as
 written is what the output received last. -/
@@ -434,7 +567,7 @@ theorem attempt_out (cfg : CCfg) (acc : Option Bytes) (script : List Exch) :
   rw [hrt]
   simp only
   by_cases hp : awaitsDigest cfg { v := v2, resent := false, src := e } = true
-  · -- pending challenge: nothing downloaded yet
+  · -- a Digest challenge: nothing downloaded by `roundTripTail`
     simp only [hp, download_skip]
     cases hdg : cfg.digest with
     | off => simp [awaitsDigest, hdg] at hp
@@ -452,7 +585,7 @@ theorem attempt_out (cfg : CCfg) (acc : Option Bytes) (script : List Exch) :
       | some x =>
         rcases x with ⟨⟨c', acc', script'⟩, f⟩
         exact digestStep_out cfg _ acc script1 c' acc' script' f hds
-  · -- not pending: `roundTripTail` downloads (if asked to); the digest middleware then does nothing
+  · -- not a challenge: `roundTripTail` downloads (if asked to); the digest middleware does nothing
     have hpf : awaitsDigest cfg { v := v2, resent := false, src := e } = false := by simpa using hp
     simp only [hpf]
     have hstep := download_outStep cfg.base cfg.file false v2 acc hv2out
@@ -461,18 +594,13 @@ theorem attempt_out (cfg : CCfg) (acc : Option Bytes) (script : List Exch) :
       intro hdg a s
       unfold digestStep
       simp only [download_hasResp, download_status]
-      have : v2.r.err.isSome = true ∨ v2.hasResp = false ∨ v2.r.status ≠ 401 := by
-        simp only [awaitsDigest, hdg, ne_eq, not_false_eq_true, decide_true, Bool.true_and, Bool.not_false,
-          Bool.and_true, Bool.and_eq_false_imp, beq_eq_false_iff_ne] at hpf
-        by_cases h1 : v2.r.err.isSome = true
-        · exact Or.inl h1
-        · by_cases h2 : v2.hasResp = false
-          · exact Or.inr (Or.inl h2)
-          · refine Or.inr (Or.inr ?_)
-            apply hpf
-            cases hh : v2.r.err <;> simp_all
-      rcases this with h | h | h
-      · simp [download_err_some _ _ _ _ _ h]
+      have : v2.hasResp = false ∨ v2.r.status ≠ 401 := by
+        simp only [awaitsDigest, hdg, ne_eq, not_false_eq_true, decide_true, Bool.true_and,
+          Bool.and_eq_false_imp, beq_eq_false_iff_ne] at hpf
+        by_cases h2 : v2.hasResp = false
+        · exact Or.inl h2
+        · exact Or.inr (hpf (by simpa using h2))
+      rcases this with h | h
       · simp [h]
       · simp [h]
     cases hdg : cfg.digest with
@@ -588,5 +716,45 @@ theorem single_slots (cfg : CCfg) (tag st : Nat) (rd : Bool) (cks : List Bytes) 
     | exact hw hb hs
     | exact hw' hb (by simpa using hs)
     | skip
+
+/-! ### observation ops do not look at what the download recorded -/
+
+theorem Resp.toBytes_noOut (r : Resp) : r.noOut.toBytes = (r.toBytes.1, r.toBytes.2.noOut) := by
+  unfold Resp.toBytes Resp.noOut
+  cases he : r.err with
+  | some e => simp [he]
+  | none =>
+    cases hc : r.cache with
+    | some c => simp [he, hc]
+    | none =>
+      cases hb : r.body with
+      | none => simp [he, hc, hb]
+      | some b =>
+        rcases hr : b.readAll with ⟨⟨d, e⟩, b'⟩
+        simp only [he, hc, hb, hr]
+        cases e <;> rfl
+
+theorem Resp.step_noOut (r : Resp) (op : Op) : r.noOut.step op = ((r.step op).1, (r.step op).2.noOut) := by
+  cases op with
+  | toBytes => simp [Resp.step, Resp.toBytes_noOut]
+  | toString => simp [Resp.step, Resp.toBytes_noOut]
+  | bytes => rfl
+  | string => rfl
+  | read n =>
+    simp only [Resp.step, Resp.noOut]
+    cases hb : r.body <;> simp [hb]
+  | readAll =>
+    simp only [Resp.step, Resp.noOut]
+    cases hb : r.body <;> simp [hb]
+  | close =>
+    simp only [Resp.step, Resp.noOut]
+    cases hb : r.body <;> simp [hb]
+
+theorem Resp.run_noOut (r : Resp) (ops : List Op) : (r.noOut.run ops).1 = (r.run ops).1 := by
+  induction ops generalizing r with
+  | nil => rfl
+  | cons op ops ih =>
+    simp only [Resp.run, Resp.step_noOut]
+    rw [ih]
 
 end Req.C02
